@@ -625,3 +625,30 @@ M('C14', 'neutral-facing-is-some-and', FILF, """            let n = m.shape.tria
                 .is_some_and(|nv| nv.angle(normal) < angle)""", '', kind='neutral')
 M('C20', 'boundary-loops-drop-triangles', EDF, "        working.reverse();\n        all_loops.push(working);", "        if working.len() > 3 {\n            working.reverse();\n            all_loops.push(working);\n        }", 'boundary_loops:every-walk-recorded')
 M('C12', 'boundary-loops-drop-triangles', EDF, "        working.reverse();\n        all_loops.push(working);", "        if working.len() > 3 {\n            working.reverse();\n            all_loops.push(working);\n        }", 'boundary_loops:every-walk-recorded')
+HLPF = 'src/airfoil/helpers.rs'
+M('C10', 'refine-midway-before-orientation', HLPF, """            let n = if next.spanning_ray.dir().dot(&last.spanning_ray.dir()) < 0.0 {
+                next.reversed()
+            } else {
+                next
+            };
+
+            let test_ray = n.spanning_ray.symmetry(&last.spanning_ray);
+""", """            let test_ray = next.spanning_ray.symmetry(&last.spanning_ray);
+
+            let n = if next.spanning_ray.dir().dot(&last.spanning_ray.dir()) < 0.0 {
+                next.reversed()
+            } else {
+                next
+            };
+""", 'midway-ray-after-orientation')
+M('C10', 'radius-gauge-wrong-edge', 'src/airfoil.rs', """                    Circle2::from_point(
+                        self.trailing_edge
+                            .as_ref()
+                            .ok_or("Trailing edge not found")?
+                            .point,
+                        -r,""", """                    Circle2::from_point(
+                        self.leading_edge
+                            .as_ref()
+                            .ok_or("Trailing edge not found")?
+                            .point,
+                        -r,""", 'get_thickness:radius-gauge')
